@@ -25,6 +25,16 @@ P = {
  "C13": ("differential runtime monitor: num-bigint mod_floor/modpow/gcd reference for every ring operation and the Reducer facade",
          "Runtime monitoring of reduce, + - * neg dbl sqr pow inv / (all ownership forms) over moduli 1, 2^k, one word (shift 0 and > 0), two words, many words, with operands of both signs up to 3x the modulus length, crafted non-invertible elements, multi-word exponents, mixing of ConstDivisor instances (must panic) and the num_modular::Reducer facade.",
          "Trusts num-bigint modular arithmetic.", "DESIGN.md §4 C13"),
+
+ "C05": ("runtime monitor: 'same value by many routes' metamorphic oracle + model ordering + canonical-layout hook + fixed-key hashing",
+         "Runtime monitoring: one mathematical value is produced through ~30 constructors/arithmetic paths/clone_from hosts (UBig), sign routes (IBig), non-reduced / signed-denominator / arithmetic / parse routes (RBig, Relaxed twins) and precision/mode/trailing-zero variants (FBig, with infinities); every pair must be ==, cmp Equal, hash-equal and canonically laid out, and routes of a neighbouring value must order like the exact model.",
+         "Trusts num-bigint/num-rational ordering and std DefaultHasher.", "DESIGN.md §4 C05"),
+ "C15": ("metamorphic runtime monitor: macro-generated call forms of each operation are each other's oracle (value or panic)",
+         "Runtime monitoring of ~2000 generated (operation, form) pairs: ownership forms, compound assignment, 12 primitive types on either side, UBig/IBig mixes, trait-method vs operator forms, ConstDivisor forms, shift forms, FBig operators vs Context methods for four mode/base instantiations, RBig/Relaxed forms with integer operands, Reduced forms, and clone/clone_from independence.",
+         "One designated form of each operation is checked against the exact model by C01-C04/C09/C13; agreement transfers correctness.", "DESIGN.md §4 C15"),
+ "C17": ("sanitizer family: Miri (UB/provenance/leak/data-race interpreter) on operation histories, AddressSanitizer+LeakSanitizer and valgrind memcheck on the same history code and on the C01/C02/C07/C09/C12/C13 workloads, plus native histories with layout-invariant hook, shadow model, buffer-sharing check and counting allocator",
+         "Runtime monitoring under sanitizers: histories over a pool of live integers (construction, in-place and by-reference arithmetic with self-aliasing, clone_from for all size relations, take/replace/drop, shifts across the inline/heap boundary, word/byte/chunk round trips, static-word values) run natively (millions of steps: invariant hook after every step, allocator balance after every history), under Miri (quick and thorough), and in the thorough tier under ASan/LSan and memcheck including Karatsuba/Toom-3/divide-and-conquer scratch-memory sizes.",
+         "Miri runs with -Zmiri-permissive-provenance (the bump allocator casts integers to pointers), so provenance inside integer/src/memory.rs is only covered spatially by ASan/memcheck; sanitizers see only what the histories reach.", "DESIGN.md §4 C17"),
 }
 NOT_YET = "monitor not built yet in this round (design in DESIGN.md §4); no claim is made until its check exists and is silent on the unchanged tree"
 
